@@ -108,6 +108,11 @@ def step (s : Cache K V) : Op K V → Cache K V × Out K V
 def run (s : Cache K V) (ops : List (Op K V)) : Cache K V :=
   ops.foldl (fun s op => (step s op).1) s
 
+/-- state and outputs after a history -/
+def runOut (s : Cache K V) : List (Op K V) → Cache K V × List (Out K V)
+  | [] => (s, [])
+  | op :: ops => ((runOut (step s op).1 ops).1, (step s op).2 :: (runOut (step s op).1 ops).2)
+
 /-! ### the list underneath, seen abstractly: entries are (cursor, element), front first -/
 
 namespace AList
